@@ -13,6 +13,7 @@ void* VERIF_new(uint64_t n) { __CPROVER_assert(n == sizeof(BLOCK), "operator new
 void VERIF_delete(void* p) { __CPROVER_assert(0, "no Block is deleted by split"); }
 void MB_CTOR(void* v) { g_mb = v; } void MB_DTOR(void* v) { }
 void ISPLIT(void* eng, void* mb, void* remove) { __CPROVER_assert(eng == (void*)g_this && mb == g_mb && remove == g_remove && !g_isplit, "internalSplit(modifiedBlocks, remove) once, before the blocks are visited"); g_isplit = 1; }
+void ISPLIT_SS(void* eng, void* mb, void* remove) { ISPLIT(eng, mb, remove); }
 BLOCK** MB_BEGIN(void* v) { __CPROVER_assert(v == g_mb && g_isplit, "traversal of modifiedBlocks after internalSplit"); seen_b = 0; cur_b = 0; return has_b ? (BLOCK**)TOK : (BLOCK**)MAYBE; }
 BLOCK** MB_END(void* v) { return (BLOCK**)0; }
 BLOCK** NIB_DEREF(void* it) { __CPROVER_assert(((ITP*)it)->p != 0, "no dereference of the end iterator of modifiedBlocks");
@@ -65,8 +66,14 @@ void Q_PUSH(void* q, void* pr_) { QPAIR* pr = (QPAIR*)pr_; __CPROVER_assert(q ==
   if (g_new == (void*)nbW && pr->f1 == wa) queued_w = 1; }
 void* SL_COPY(void* l) { __CPROVER_assert(l != 0 && l == g_rm_read && g_rm_read_a == cell_a, "copy() of the parent's pending Remove for the label under the cursor");
   return (g_parent == (void*)wB && cell_a == wa) ? g_copy_w : TOKCP; }
+void h_FSPLIT(void);
 void h_SPLIT(void) { g_this = malloc(sizeof *g_this); g_rmask = malloc(8); g_remove = malloc(8); g_lts = malloc(8); wB = malloc(sizeof *wB); bO = malloc(sizeof *bO); nbW = malloc(sizeof *nbW); nbO = malloc(sizeof *nbO);
   __CPROVER_assume(g_this && g_rmask && g_remove && g_lts && wB && bO && nbW && nbO);
   g_this->f0 = g_lts; wB->f0 = wbi; g_N = g_N0; __CPROVER_assume(SIZES && wbi < g_N0 && g_copy_w != 0 && (g_rm_w == 0 || g_rm_w == TOKRM));
   g_isplit = 0; tried_w = 0; rm_old = rm_new = ctor_w = pushed_w = relsplit_w = copied_w = queued_w = g_new_valid = g_try_valid = 0; cell_rm_nbw = 0;
   SPLIT(g_this, g_rmask, g_remove); CANARY("h_SPLIT"); }
+void h_FSPLIT(void) { g_this = malloc(sizeof *g_this); g_remove = malloc(8); g_lts = malloc(8); wB = malloc(sizeof *wB); bO = malloc(sizeof *bO); nbW = malloc(sizeof *nbW); nbO = malloc(sizeof *nbO);
+  __CPROVER_assume(g_this && g_remove && g_lts && wB && bO && nbW && nbO);
+  g_this->f0 = g_lts; wB->f0 = wbi; g_N = g_N0; __CPROVER_assume(SIZES && wbi < g_N0);
+  g_isplit = 0; tried_w = 0; ctor_w = pushed_w = relsplit_w = g_new_valid = g_try_valid = 0;
+  FSPLIT(g_this, g_remove); CANARY("h_FSPLIT"); }
